@@ -7,6 +7,7 @@ package c03
 
 import (
 	"context"
+	"os"
 	"fmt"
 	"log/slog"
 	"net"
@@ -110,8 +111,18 @@ type tsConn struct {
 	oob []byte
 }
 
+// with VERIF_FIXED_PORTS the harness sockets use fixed ports (the port-reuse
+// scenario runs in a network namespace whose ephemeral range is a single port,
+// which must stay free for the client under test)
+var nextFixedPort = 41000
+
 func listenTS(ip string) (*tsConn, error) {
-	c, err := net.ListenUDP("udp", &net.UDPAddr{IP: net.ParseIP(ip)})
+	port := 0
+	if os.Getenv("VERIF_FIXED_PORTS") != "" {
+		nextFixedPort++
+		port = nextFixedPort
+	}
+	c, err := net.ListenUDP("udp", &net.UDPAddr{IP: net.ParseIP(ip), Port: port})
 	if err != nil {
 		return nil, err
 	}
